@@ -36,14 +36,20 @@ fn check_queries_inner<M: GuestMemory + RegionPtrs>(
         fail(ctx, imp, l, "num_regions", 0, 0, format!("{} != {}", mem.num_regions(), l.regs.len()));
     }
     let it: Vec<(u64, u64)> = mem.iter().map(|r| (r.start_addr().0, r.len())).collect();
-    if it != l.regs {
+    // (the second implementation keeps its regions in an order of its own: the trait promises
+    // no iteration order)
+    let mut it_sorted = it.clone();
+    it_sorted.sort();
+    if (imp == "mmap" && it != l.regs) || it_sorted != l.regs {
         fail(ctx, imp, l, "iter", 0, 0, format!("iter() yields {:?}", it));
+        return;
     }
     if mem.last_addr().0 != l.last_addr() {
         fail(ctx, imp, l, "last_addr", 0, 0, format!("{:#x} != {:#x}", mem.last_addr().0, l.last_addr()));
     }
     // per region defaults
-    for (i, r) in mem.iter().enumerate() {
+    for r in mem.iter() {
+        let i = l.regs.iter().position(|x| x.0 == r.start_addr().0).unwrap();
         let (s, n) = l.regs[i];
         if r.last_addr().0 != s + (n - 1) {
             fail(ctx, imp, l, "region.last_addr", s, 0, format!("{:#x}", r.last_addr().0));
